@@ -434,6 +434,7 @@ func c19NearCases() []c19NearCase {
 		{mk, "[mk(1)]", "K[0]())", append(wr("[mk(2)]"), "K[0] = mk(2)")},
 		{mk, `{"f": mk(1)}`, "K.f())", append(wr(`{"f": mk(2)}`), "K.f = mk(2)")},
 		{nil, "func(x) {x + (1 + 2)}", "K(0.5), K([1]))", wr("func(x) {x + 1 + 2}")},
+		{nil, "func ga(x) {x + 1}", "K(1))", wr("func gb(x) {x + 1}")}, {nil, "func(x) {x + 1}", "K(1))", wr("func gb(x) {x + 1}")}, {nil, "func ga(x) {x + 1}", "K(1))", wr("func(x) {x + 1}")},
 		{nil, `"1"`, "type(K))", wr("1")}, {nil, "nil", "type(K))", wr("[]")}, {nil, "[]", "type(K), len(K))", wr("{}")}, {nil, "{}", "type(K))", wr("[]")},
 		{nil, "true", "type(K))", wr("1")}, {nil, "0", "type(K))", wr("false")}, {nil, `""`, "type(K), len(K))", wr("nil")},
 	}
